@@ -5,10 +5,10 @@
 EXTENDS AstConfigs, JaqalExec
 
 XTree == ExecTree(Prog, <<>>)
+\* number of qubits of the (single) fundamental register
+NQProg == LET t == RegTab(Prog, Env(Prog, <<>>)) IN Len(t[CHOOSE r \in FundNames(Prog) : TRUE].elems)
 EmitX == Complete => PrintT(<<"PROG", ToJson([Prog EXCEPT !.natives = NatTag(@)]),
-                              Len(VisitsOf(XTree).visits), DiscoverRule(XTree).accept,
-                              LET t == RegTab(Prog, Env(Prog, <<>>)) IN
-                              Len(t[CHOOSE r \in FundNames(Prog) : TRUE].elems)>>)
+                              Len(VisitsOf(XTree).visits), DiscoverRule(XTree).accept, NQProg>>)
 
 \* the explicit spelling of a program (reference version of expand_subcircuits on the AST): every subcircuit
 \* block becomes a sequential block that begins with prepare_all and ends with measure_all
@@ -53,6 +53,6 @@ NormPreserved == Complete =>
   LET d == DiscoverRule(XTree) IN
   d.accept => \A k \in DOMAIN d.pairs :
      LET sg == SubGates(XTree, k)
-         es == Emulate(sg.gates, 3, Prog)
+         es == Emulate(sg.gates, NQProg, Prog)
      IN ~sg.visited \/ Norm2(es.vec) = 2 ^ es.k
 =============================================================================
